@@ -270,6 +270,7 @@ pub mod openssl {
         pub struct X509NameBuilder { pub view: Ghost<NameView> }
         pub struct X509v3Context { pub x: u8 }
         pub struct X509Extension { pub view: Ghost<ExtView> }
+        // a builder's `signed` says what the signature covers: any change made after `sign` leaves the request / certificate without a valid signature
         pub struct X509ReqBuilder { pub view: Ghost<CertView> }
         pub struct X509Builder { pub view: Ghost<CertView> }
         impl X509 {
@@ -308,15 +309,15 @@ pub mod openssl {
             pub fn new() -> (r: Result<X509ReqBuilder, ErrorStack>) ensures r matches Ok(b) ==> b.view@ == empty_cert() { unimplemented!() }
             #[verifier::external_body]
             pub fn set_pubkey<T>(&mut self, k: &super::pkey::PKey<T>) -> (r: Result<(), ErrorStack>)
-                ensures r is Ok ==> final(self).view@ == (CertView { pubkey: Some(k.ident@), ..old(self).view@ }) { unimplemented!() }
+                ensures r is Ok ==> final(self).view@ == (CertView { pubkey: Some(k.ident@), signed: None, ..old(self).view@ }) { unimplemented!() }
             #[verifier::external_body]
             pub fn set_subject_name(&mut self, n: &X509Name) -> (r: Result<(), ErrorStack>)
-                ensures r is Ok ==> final(self).view@ == (CertView { subject: Some(n.view@), ..old(self).view@ }) { unimplemented!() }
+                ensures r is Ok ==> final(self).view@ == (CertView { subject: Some(n.view@), signed: None, ..old(self).view@ }) { unimplemented!() }
             #[verifier::external_body]
             pub fn x509v3_context(&self, conf: Option<u8>) -> X509v3Context { unimplemented!() }
             #[verifier::external_body]
             pub fn add_extensions(&mut self, s: &super::stack::Stack<X509Extension>) -> (r: Result<(), ErrorStack>)
-                ensures r is Ok ==> final(self).view@ == (CertView { exts: old(self).view@.exts + s.v@.map_values(|e: X509Extension| e.view@), ..old(self).view@ }) { unimplemented!() }
+                ensures r is Ok ==> final(self).view@ == (CertView { exts: old(self).view@.exts + s.v@.map_values(|e: X509Extension| e.view@), signed: None, ..old(self).view@ }) { unimplemented!() }
             #[verifier::external_body]
             pub fn sign<T>(&mut self, k: &super::pkey::PKey<T>, d: super::hash::MessageDigest) -> (r: Result<(), ErrorStack>)
                 ensures r is Ok ==> final(self).view@ == (CertView { signed: Some((k.ident@, d.id)), ..old(self).view@ }) { unimplemented!() }
@@ -328,28 +329,28 @@ pub mod openssl {
             pub fn new() -> (r: Result<X509Builder, ErrorStack>) ensures r matches Ok(b) ==> b.view@ == empty_cert() { unimplemented!() }
             #[verifier::external_body]
             pub fn set_version(&mut self, v: i32) -> (r: Result<(), ErrorStack>)
-                ensures r is Ok ==> final(self).view@ == (CertView { version: Some(v), ..old(self).view@ }) { unimplemented!() }
+                ensures r is Ok ==> final(self).view@ == (CertView { version: Some(v), signed: None, ..old(self).view@ }) { unimplemented!() }
             #[verifier::external_body]
             pub fn set_serial_number(&mut self, s: &super::asn1::Asn1Integer) -> (r: Result<(), ErrorStack>)
-                ensures r is Ok ==> final(self).view@ == (CertView { serial_random_bits: Some(s.bits@), ..old(self).view@ }) { unimplemented!() }
+                ensures r is Ok ==> final(self).view@ == (CertView { serial_random_bits: Some(s.bits@), signed: None, ..old(self).view@ }) { unimplemented!() }
             #[verifier::external_body]
             pub fn set_subject_name(&mut self, n: &X509Name) -> (r: Result<(), ErrorStack>)
-                ensures r is Ok ==> final(self).view@ == (CertView { subject: Some(n.view@), ..old(self).view@ }) { unimplemented!() }
+                ensures r is Ok ==> final(self).view@ == (CertView { subject: Some(n.view@), signed: None, ..old(self).view@ }) { unimplemented!() }
             #[verifier::external_body]
             pub fn set_issuer_name(&mut self, n: &X509Name) -> (r: Result<(), ErrorStack>)
-                ensures r is Ok ==> final(self).view@ == (CertView { issuer: Some(n.view@), ..old(self).view@ }) { unimplemented!() }
+                ensures r is Ok ==> final(self).view@ == (CertView { issuer: Some(n.view@), signed: None, ..old(self).view@ }) { unimplemented!() }
             #[verifier::external_body]
             pub fn set_pubkey<T>(&mut self, k: &super::pkey::PKey<T>) -> (r: Result<(), ErrorStack>)
-                ensures r is Ok ==> final(self).view@ == (CertView { pubkey: Some(k.ident@), ..old(self).view@ }) { unimplemented!() }
+                ensures r is Ok ==> final(self).view@ == (CertView { pubkey: Some(k.ident@), signed: None, ..old(self).view@ }) { unimplemented!() }
             #[verifier::external_body]
             pub fn set_not_before(&mut self, t: &super::asn1::Asn1Time) -> (r: Result<(), ErrorStack>)
-                ensures r is Ok ==> final(self).view@ == (CertView { not_before: Some(t.t@), ..old(self).view@ }) { unimplemented!() }
+                ensures r is Ok ==> final(self).view@ == (CertView { not_before: Some(t.t@), signed: None, ..old(self).view@ }) { unimplemented!() }
             #[verifier::external_body]
             pub fn set_not_after(&mut self, t: &super::asn1::Asn1Time) -> (r: Result<(), ErrorStack>)
-                ensures r is Ok ==> final(self).view@ == (CertView { not_after: Some(t.t@), ..old(self).view@ }) { unimplemented!() }
+                ensures r is Ok ==> final(self).view@ == (CertView { not_after: Some(t.t@), signed: None, ..old(self).view@ }) { unimplemented!() }
             #[verifier::external_body]
             pub fn append_extension(&mut self, e: X509Extension) -> (r: Result<(), ErrorStack>)
-                ensures r is Ok ==> final(self).view@ == (CertView { exts: old(self).view@.exts.push(e.view@), ..old(self).view@ }) { unimplemented!() }
+                ensures r is Ok ==> final(self).view@ == (CertView { exts: old(self).view@.exts.push(e.view@), signed: None, ..old(self).view@ }) { unimplemented!() }
             #[verifier::external_body]
             pub fn x509v3_context(&self, a: Option<u8>, b: Option<u8>) -> X509v3Context { unimplemented!() }
             #[verifier::external_body]
